@@ -412,6 +412,20 @@ func runUnit(prop *Prop, u *Unit, id, tier string, seed int64, replay, work stri
 	cmd.Dir = repoRoot
 	cmd.Env = goEnv()
 	if out, err := cmd.CombinedOutput(); err != nil {
+		if len(u.Profile.Imports) > 0 || len(u.Profile.MapRanges) > 0 {
+			// Does the package build WITHOUT the instrumentation? Then the working tree is fine and
+			// it is the shim that cannot express something the tree now uses: skip this unit loudly
+			// (never an alarm), and say so in the evidence.
+			plain := exec.Command("go", "test", "-c", "-tags", "verif", "-vet=off", "-o", os.DevNull, "./"+u.Pkg)
+			plain.Dir = repoRoot
+			plain.Env = goEnv()
+			if perr := plain.Run(); perr == nil {
+				rep := shardReport{Unit: u.Name, Exhaustive: false, Counters: map[string]int64{"units_skipped_instrumentation_not_applicable": 1},
+					Notes: []string{"UNIT SKIPPED: the instrumented build (import rewrite / map-range rewrite) does not compile against this working tree although the package itself does; the shim lacks something the tree uses: " + firstLines(tail(string(out), 6), 6)}}
+				fmt.Printf("NOTE property=%s unit %s skipped: instrumented build does not compile (package builds without instrumentation)\n", id, u.Name)
+				return []shardReport{rep}, ov.Sources, nil
+			}
+		}
 		return nil, ov.Sources, fmt.Errorf("build of harness for %s failed (the working tree may not compile with the harness): %v\n%s", u.Pkg, err, tail(string(out), 60))
 	}
 	for _, extra := range u.Builds {
